@@ -35,7 +35,9 @@ def fname_call(f, nargs):
 def corrupt(rng, expr, pos):
     """Returns (operator, corrupted text) or None if the operator does not apply to expr."""
     ops = ["drop-close", "extra-open", "unterminated-string", "unknown-function", "arity-minus", "arity-plus", "trailing-garbage",
-           "trailing-paren", "empty", "truncate", "unterminated-name-ref", "index-overflow", "unknown-input-context"]
+           "trailing-paren", "empty", "truncate", "unterminated-name-ref", "index-overflow", "unknown-input-context", "nameless-reference"]
+    if pos == "filter":
+        ops += ["filter-with-name", "filter-with-name"]
     if pos == "sort":
         ops += ["bad-direction", "bad-direction-eq", "glued-direction"]
     op = rng.choice(ops)
@@ -55,6 +57,13 @@ def corrupt(rng, expr, pos):
     if op == "unterminated-name-ref":
         # /name/ without its closing slash, at the very end of the option value
         return op, rng.choice(["/c0", "/c", "/sel", "/a b"])
+    if op == "nameless-reference":
+        # `:` / `@` without a name, in front of a separator rather than at the very end of the text
+        return op, rng.choice(["(= : 1)", "(default : \"x\")", "(default @ .a)", "(len @)", "(+ 1 :)", "(? true : 1)", "(default .a @ )", "(concat :\t\"x\")",
+                               "(push [] :, 1)", "(| . :)", "(map .arr (+ . @))"])
+    if op == "filter-with-name":
+        # --filter takes a bare selection: there is no `=name` part
+        return op, expr + rng.choice(["=true", "=x", " = yes", " =", "=", "= yes )) junk", "=c0", "\t=\tname"])
     if op == "unknown-input-context":
         # the documented & names, with a separator added, doubled, moved or dropped, a letter missing or added
         t = rng.choice(["&in-dex", "&index-", "&-index", "&file--name", "&filename", "&indexin-file", "&index_", "&inde", "&indexx", "&", "&index-in", "&file",
